@@ -106,7 +106,17 @@ impl KNumber {
                 if b < 0 {
                     F64((a as f64).powf(b as f64))
                 } else {
-                    I64(a.wrapping_pow(b as u32))
+                    // i64::wrapping_pow takes a 32 bit exponent, which would truncate larger
+                    // exponents (2 ^ 4294967296 would be 2 ^ 0), so square-and-multiply here.
+                    let (mut base, mut exponent, mut result) = (a, b as u64, 1_i64);
+                    while exponent > 0 {
+                        if exponent & 1 == 1 {
+                            result = result.wrapping_mul(base);
+                        }
+                        base = base.wrapping_mul(base);
+                        exponent >>= 1;
+                    }
+                    I64(result)
                 }
             }
         }
